@@ -353,6 +353,12 @@ def applyOp (s : St) (ws : List String) : St × String :=
       let expSteps := if Isa.isMul op || Isa.isDiv op then steps else Flow.stepsOf op b2.toNat?
       (s, s!"edges={steps + ram} steps={expSteps}")
     | _, _, _ => bad
+  | ["spec.costint", op, b2, steps, ram] =>
+    -- the end word enters the interrupt routine instead of the fetch: 9 micro-steps (C04 int_taken) replace the final one
+    match op.toNat?, steps.toNat?, ram.toNat? with
+    | some op, some steps, some ram =>
+      (s, s!"edges={steps + ram} steps={Flow.stepsOf op b2.toNat? + 8}")
+    | _, _, _ => bad
   | ["toboundary"] =>
     let m' := runLifted (fun x => x.core.done) 3000 m
     ({ s with m := m' }, if m'.core.done then "boundary" else "hang")
